@@ -372,9 +372,9 @@ PROP = with_src(C03(), share=8, functions=[
                     "Specifier._compare_less_than", "Specifier._compare_greater_than",
                     "Specifier._compare_less_than_equal", "Specifier._compare_greater_than_equal",
                     "Specifier._compare_arbitrary", "Specifier._compare_equal", "Specifier._compare_not_equal",
-                    "Specifier._compare_compatible", "Specifier.contains", "Specifier.prereleases"],
+                    "Specifier._compare_compatible", "Specifier.contains", "Specifier.prereleases", "_BaseVersion.__ne__"],
                 module=["PkgProofs.Props.Src.Specifier", "PkgProofs.Props.Src.SpecCompare", "PkgProofs.Props.Src.SpecEqual",
-                        "PkgProofs.Props.Src.SpecContains"],
+                        "PkgProofs.Props.Src.SpecContains", "PkgProofs.Props.Src.Gaps"],
                 theorems=["Src._is_not_suffix_translated", "Src._is_not_suffix_eq_model",
                           "Src._version_join_translated", "Src._version_join_eq_model",
                           "Src._pad_version_translated", "Src._pad_version_eq_model",
@@ -391,4 +391,7 @@ PROP = with_src(C03(), share=8, functions=[
                           "Src.Specifier._compare_arbitrary_eq_model", "Src.Specifier._compare_equal_eq_model",
                           "Src.Specifier._compare_not_equal_eq_model", "Src.Specifier._compare_compatible_eq_model",
                           "Src.contains_translated", "Src.Specifier.prereleases_eq_model",
-                          "Src.get_operator_call_eq_model", "Src.Specifier.contains_eq_model"])
+                          "Src.get_operator_call_eq_model", "Src.Specifier.contains_eq_model",
+                          "Src.Specifier._compare_not_equal_translated", "Src.Specifier._compare_compatible_translated",
+                          "Src._BaseVersion.__ne___translated", "Src._BaseVersion.__ne___eq_model",
+                          "Src._BaseVersion.__ne___other"])
